@@ -66,7 +66,7 @@ Print Assumptions C07_stop_drains_partial.
 Definition K_c07 : cfg :=
   {| c_cap := 256; c_batch := 12; c_pub := {| on_batch := true; on_drain := true |}; c_dropping := false;
      c_tinit := 4; c_soft := 4; c_hard := 8; c_grace := 1000; c_bits := 32; c_refresh2 := true; c_catch_all := true;
-     c_report_first := true; c_bt := {| BT.BTModel.reset_index_in_process := true; BT.BTModel.cap0_guard := true |}; c_bt_catch := true; c_flush_iv := 0 |}.
+     c_report_first := true; c_bt := {| BT.BTModel.reset_index_in_process := true; BT.BTModel.cap0_guard := true |}; c_bt_catch := true; c_flush_iv := 0; c_follow := true |}.
 Definition c07_before_stop : st :=
   fst (exec_all K_c07 (st0 100000 1 1 (fun _ => mk_lgr 0 [0%nat]) (fun _ => mk_snk 0 []))
      [CLog 0 (mk_ev 1 0 4 51 0) false; CTick 1; CLog 1 (mk_ev 2 0 4 51 0) false; CTick 1; CLog 0 (mk_ev 3 0 4 51 0) false; CExit 0]).
